@@ -40,9 +40,26 @@ def run_batch(batch):
 def run(ctx):
     n = 220 if ctx.thorough else 36
     wfs = [C03.all_outs(wc.sample(ctx.rng, 3 if i % 2 else 4)) for i in range(3 * n)] + [C03.all_outs(w) for w in wc.diamond_family()]
-    exp = wc.tlc_expected(ctx, wfs)
-    keep = [(w, e) for w, e in zip(wfs, exp) if not e["rejected"] and not e["absent"]
-            and not any(c["cD"] or c["cP"] or c["cI"] for c in e["classes"]) and max(e["njobs"]) >= 2][:n]
+    nest = [C03.all_outs(wc.nested_sample(ctx.rng, 2 + i % 3)) for i in range(n)]       # nested-workflow nodes (WfState!JobTerm)
+    # splits over upstream outputs, list-maker nodes, nodes with ZERO jobs (empty-split family: always kept)
+    ups = [wc.upsplit_sample(ctx.rng, 2 + i % 3) for i in range(2 * n)]
+    fam = wc.empty_split_family()
+    exp = wc.tlc_expected(ctx, wfs + nest + ups + fam)
+    ok = lambda e, minjobs=2: (not e["rejected"] and not e["absent"] and max(e["njobs"]) >= minjobs  # noqa
+                               and not (e["badinner"] or e["badsplit"] or e["emptypartial"] or e["innerstate"])
+                               and not any(c["cD"] or c["cP"] or c["cI"] for c in e["classes"]))
+    n_nest = n // 4
+    o1, o2, o3 = len(wfs), len(wfs) + len(nest), len(wfs) + len(nest) + len(ups)
+    keep_n = [(w, e) for w, e in zip(nest, exp[o1:o2]) if ok(e)][:n_nest]
+    keep_u = [(w, e) for w, e in zip(ups, exp[o2:o3]) if ok(e)][:n_nest]
+    keep_f = [(w, e) for w, e in zip(fam, exp[o3:]) if ok(e, 0)]
+    if not ctx.thorough:
+        keep_f = [p for p in keep_f if p[0]["nodes"][0]["name"] == "n0" or p[0]["nodes"][1].get("mk") == 0][:6]
+    keep = [(w, e) for w, e in zip(wfs, exp) if ok(e)][:n - len(keep_n) - len(keep_u)] + keep_n + keep_u + keep_f
+    wfs = wfs + nest + ups + fam
+    ctx.extra["nested_workflow_records"] = len(keep_n)
+    ctx.extra["upstream_split_records"] = len(keep_u)
+    ctx.extra["empty_split_family"] = len(keep_f)
     skipped = len(wfs) - len(keep)
     cfgs = [{"worker": "debug"}]
     for np_ in ([1, 2, 4, 8] if ctx.thorough else [1, 4]):
@@ -68,7 +85,7 @@ def run(ctx):
     ctx.extra["records_skipped_rejected_or_known_classes"] = skipped
     if keep:
         ctx.sample({"workflow": wc.wf_source(keep[0][0]).split("def GenWf")[1], "configurations": len(cfgs)})
-    ctx.rule = "C03 generator (3-4 nodes + diamond family, records of recorded C03 findings skipped) x worker configurations x delay seeds"
+    ctx.rule = "C03 generator (3-4 nodes + diamond family + nested-workflow nodes + splits over upstream outputs + the empty-split family (nodes with zero jobs), records of recorded C03 findings skipped) x worker configurations x delay seeds"
     ctx.assume("completion orders are permuted by seeded per-job delays, not forced; forced orders are covered on gate workflows by C15")
 
 
